@@ -27,8 +27,8 @@ def run_demo(demo, wc):
 
 def main():
     only = [a for a in sys.argv[1:] if not a.startswith("--")]
-    for d in sorted(glob.glob("/tmp/mut-C*/OUT/*") + glob.glob("/tmp/mut2-C*/OUT/*") + glob.glob("/tmp/mut3-C*/OUT/*") + glob.glob("/tmp/mut4-C*/OUT/*") + glob.glob("/tmp/mut5-C*/OUT/*") + glob.glob("/tmp/mut6-C*/OUT/*")):
-        pid = d.split("/")[2].replace("mut6-", "").replace("mut5-", "").replace("mut4-", "").replace("mut3-", "").replace("mut2-", "").replace("mut-", "")
+    for d in sorted(glob.glob("/tmp/mut-C*/OUT/*") + glob.glob("/tmp/mut2-C*/OUT/*") + glob.glob("/tmp/mut3-C*/OUT/*") + glob.glob("/tmp/mut4-C*/OUT/*") + glob.glob("/tmp/mut5-C*/OUT/*") + glob.glob("/tmp/mut6-C*/OUT/*") + glob.glob("/tmp/mut7-C*/OUT/*")):
+        pid = d.split("/")[2].replace("mut7-", "").replace("mut6-", "").replace("mut5-", "").replace("mut4-", "").replace("mut3-", "").replace("mut2-", "").replace("mut-", "")
         x = os.path.basename(d)
         sid = "%s-%s" % (pid, x)
         if only and sid not in only:
